@@ -32,6 +32,8 @@ type iterCase struct {
 	// Busy: the set of nodes stays what it is, but the proxy is not idle between two SCAN calls: the slot table is refreshed
 	// (successfully) at least once between any two calls, and a second connection sends keyed commands all the time.
 	Busy bool `json:"busy,omitempty"`
+	// ArgStyle: 0 "MATCH p COUNT n", 1 "COUNT n MATCH p", 2 lower-case option names (Redis accepts all three)
+	ArgStyle int `json:"arg_style,omitempty"`
 }
 
 var terminal = ref.ArrV(ref.BulkS("0"), ref.ArrV())
@@ -120,11 +122,19 @@ func checkIter(c iterCase) (nt bool, v *verdict) {
 	defer cl.Close()
 	w.ResetLog()
 	extra := []string{}
+	mw, cw := "MATCH", "COUNT"
+	if c.ArgStyle == 2 {
+		mw, cw = "match", "count"
+	}
 	if c.Match != "" {
-		extra = append(extra, "MATCH", c.Match)
+		extra = append(extra, mw, c.Match)
 	}
 	if c.Count > 0 {
-		extra = append(extra, "COUNT", strconv.Itoa(c.Count))
+		if c.ArgStyle == 1 {
+			extra = append([]string{cw, strconv.Itoa(c.Count)}, extra...)
+		} else {
+			extra = append(extra, cw, strconv.Itoa(c.Count))
+		}
 	}
 	if c.Busy {
 		bg, err := sim.Dial(px.Addr)
@@ -290,6 +300,7 @@ func genIter(t *rapid.T) iterCase {
 	if rapid.Bool().Draw(t, "count") {
 		c.Count = rapid.IntRange(1, 10000).Draw(t, "cnt")
 	}
+	c.ArgStyle = rapid.IntRange(0, 2).Draw(t, "argstyle")
 	return c
 }
 
